@@ -15,7 +15,7 @@ TRUSTED = ['harness/treegen.py: the tree grammar, the speller (every free choice
            'harness/htmlnorm.py: CommonMark\'s test normalisation',
            'Spec/Spell.v: the Coq twin of the grammar for the kernel sweep (independent of the parser model)',
            'the pipeline model (tied by X-doc on the generated texts); vm_compute for the sweep']
-ASSUMPTIONS = ['unbounded theorem on a fragment: paragraphs of one or more lines (inert delimiters; lines ending in spaces), one-line paragraphs with inline markup (emphasised phrases and links mixed, a code span, strikethrough, escape, image, titled link, nested emphasis), ATX headings, thematic breaks, fenced code blocks, quotes and lists of one or more items (all markers, padding 1-4), any size and depth, '
+ASSUMPTIONS = ['unbounded theorem on a fragment: paragraphs of one or more lines (inert delimiters; lines ending in spaces), one-line paragraphs with inline markup (emphasised phrases and links mixed, a code span, strikethrough, escape, image, link with a title (in double quotes, single quotes or parentheses), nested emphasis), ATX headings, thematic breaks, fenced code blocks, quotes and lists of one or more items (all markers, padding 1-4), any size and depth, '
                'two lists never adjacent siblings: the block tokenizer returns exactly the pre-token tree written from the tree (C03_fragment_parses), and Document(lines) - with the fuel it really gives, proved sufficient - holds exactly the token tree written from the tree under every renderer\'s token sets (C03_fragment_document, _markdown), and the HTML renderer model writes for it exactly the HTML written directly from the tree, also when the text is one string (C03_fragment_html, C03_fragment_markdown_html); the fragment '
                'stream runs the same trees on the implementation',
                'PARTIAL beyond the fragment: in the kernel the HTML statement is bounded to the family stated in C03_bounded_trees; the full grammar is sampled on the implementation',
@@ -127,7 +127,7 @@ def frag_tree(rng, depth):
             post = rng.choice(['', '.', ' end', ', then more', ')', '" ok', '; z', '?x', 's'])
             kind = rng.choice(['strike', 'esc', 'img', 'nest', 'tlink', 'auto'])
             w = ' '.join(rng.choice(EM_INNER) for _ in range(rng.randint(1, 3)))
-            x = ('strike', w) if kind == 'strike' else ('esc', rng.choice('!"#%\'()*+,-./:;=>?@[\\]^_}')) if kind == 'esc' else ('img', w, rng.choice(LINK_DESTS)) if kind == 'img' else ('tlink', w, rng.choice(LINK_DESTS), rng.choice(['Its title', 't', 'a (b) c', "it's", 'x: y, z', 'é 中'])) if kind == 'tlink' else ('auto', rng.choice(['http', 'https', 'ftp', 'mailto', 'x-1', 'a0']), rng.choice(['//ex.am/a-b?c=d#e', '//user@host.ex/p', 'me@ex.am', '//h', '', '/p/q.html', '//é.ex/中', 'a+b,c;d'])) if kind == 'auto' else None
+            x = ('strike', w) if kind == 'strike' else ('esc', rng.choice('!"#%\'()*+,-./:;=>?@[\\]^_}')) if kind == 'esc' else ('img', w, rng.choice(LINK_DESTS)) if kind == 'img' else _tlink(rng, w) if kind == 'tlink' else ('auto', rng.choice(['http', 'https', 'ftp', 'mailto', 'x-1', 'a0']), rng.choice(['//ex.am/a-b?c=d#e', '//user@host.ex/p', 'me@ex.am', '//h', '', '/p/q.html', '//é.ex/中', 'a+b,c;d'])) if kind == 'auto' else None
             if kind == 'nest':          # an emphasised phrase holding emphasised phrases: (char, run length, text before, phrases, text after)
                 aw = lambda: ' '.join(rng.choice([x_ for x_ in EM_INNER if x_[0].isalnum() and x_[-1].isalnum()]) for _ in range(rng.randint(1, 2)))
                 phs = [(rng.choice('*_'), rng.choice([1, 2]), aw(), rng.choice([' and ', ', ', '. Then ', ' (', ') ', ': "', '" ', ' '])) for _ in range(rng.randint(0, 3))]
@@ -224,7 +224,7 @@ def frag_gallina(t):
         return '(FTick %d %s %d %s %s)' % (ord(t[1][0]), _zl(t[1][1:]), t[4] - 1, _zl(t[2]), _zl(t[3]))
     if t[0] == 'o':
         x = t[2]
-        gx = '(IStrike %s)' % _zl(x[1]) if x[0] == 'strike' else '(IEsc %d)' % ord(x[1]) if x[0] == 'esc' else '(IImg %s %s)' % (_zl(x[1]), _zl(x[2])) if x[0] == 'img' else '(ILinkT %s %s %s)' % (_zl(x[1]), _zl(x[2]), _zl(x[3])) if x[0] == 'tlink' else '(IAuto %d %s %s)' % (ord(x[1][0]), _zl(x[1][1:]), _zl(x[2])) if x[0] == 'auto' else \
+        gx = '(IStrike %s)' % _zl(x[1]) if x[0] == 'strike' else '(IEsc %d)' % ord(x[1]) if x[0] == 'esc' else '(IImg %s %s)' % (_zl(x[1]), _zl(x[2])) if x[0] == 'img' else '(ILinkT %s %s %d %s)' % (_zl(x[1]), _zl(x[2]), ord(x[4]), _zl(x[3])) if x[0] == 'tlink' else '(IAuto %d %s %s)' % (ord(x[1][0]), _zl(x[1][1:]), _zl(x[2])) if x[0] == 'auto' else \
             '(INest %d %d %s [%s] %s)' % (ord(x[1]), x[2] - 1, _zl(x[3]), '; '.join('(%d, %d%%nat, %s, %s)' % (ord(c), k - 1, _zl(w), _zl(t)) for c, k, w, t in x[4]), _zl(x[5]))
         return '(FOne %d %s %s %s)' % (ord(t[1][0]), _zl(t[1][1:]), gx, _zl(t[3]))
     if t[0] == 'b':
@@ -369,11 +369,19 @@ def code_lines_html(text):
     return out + outside(text[pos:])
 
 
+def _tlink(rng, w):
+    """an inline link with a title: the title written between double quotes, single quotes or parentheses - whichever the title's own
+    characters allow (CommonMark 6.3: the title may not hold its own delimiter unescaped)"""
+    title = rng.choice(['Its title', 't', 'a (b) c', "it's", 'x: y, z', 'é 中', 'say "hi"', "'q' \"r\"", '1) 2', 'a ( b'])
+    ways = [q for q in '"\'(' if q not in title and (q != '(' or ')' not in title)]
+    return ('tlink', w, rng.choice(LINK_DESTS), title, rng.choice(ways))
+
+
 def inl_text(x):
     if x[0] == 'auto':
         return '<' + x[1] + ':' + x[2] + '>'
     if x[0] == 'tlink':
-        return '[' + x[1] + '](' + x[2] + ' "' + x[3] + '")'
+        return '[' + x[1] + '](' + x[2] + ' ' + x[4] + x[3] + (')' if x[4] == '(' else x[4]) + ')'
     if x[0] == 'nest':
         return x[1] * x[2] + x[3] + ''.join(c * k + w + c * k + t for c, k, w, t in x[4]) + x[5] + x[1] * x[2]
     return '~~' + x[1] + '~~' if x[0] == 'strike' else '\\' + x[1] if x[0] == 'esc' else '![' + x[1] + '](' + x[2] + ')'
@@ -403,7 +411,7 @@ def frag_expect(t, ln):
         if x[0] == 'auto':
             el = [trees.TAGS['AutoLink'], x[1] + ':' + x[2], False, [[0, x[1] + ':' + x[2]]]]
         elif x[0] == 'tlink':
-            el = [trees.TAGS['Link'], x[2], x[3], 'uri', [], '"', [[0, x[1]]]]
+            el = [trees.TAGS['Link'], x[2], x[3], 'uri', [], x[4], [[0, x[1]]]]
         elif x[0] == 'nest':
             kids, g = [], x[3]
             for pc_, pk_, pw_, pt_ in x[4]:
